@@ -112,6 +112,20 @@ impl DetectProp for C01 {
         let mut s = Sett::default();
         s.incl = vec!["ascii".into(), "utf-8".into(), "windows-1252".into(), "koi8-r".into(), "iso-8859-15".into()];
         v.push(Case { bytes: big(1_000_050, 900_000), sett: s.clone(), tag: "directed:large-filtered:tail".into() });
+        // > 1 MB declaring a code page that cannot decode one tail byte; threshold 0 so that only the
+        // fallback slots can answer
+        let mut rng = Rng::new(4242);
+        for k in 0..(if thorough { 6 } else { 2 }) {
+            let (b, enc) = large_declared_bad_tail(&mut rng);
+            let mut s = Sett::default();
+            s.thr = if k % 2 == 0 { 0.0 } else { 0.001 };
+            if k % 3 != 2 {
+                s.incl = vec![enc.to_string(), "ascii".into(), "utf-8".into()];
+                v.push(Case { bytes: b, sett: s, tag: format!("directed:large-declared-bad-tail:{}", enc) });
+            } else {
+                v.push(Case { bytes: b, sett: s, tag: format!("nomodel:large-declared-bad-tail:{}", enc) });
+            }
+        }
         if thorough {
             v.push(Case { bytes: big(1_000_050, 499_990), sett: s.clone(), tag: "directed:large-filtered:head".into() });
             for (len, pos) in [(1_000_050usize, 900_000usize), (999_990, 700_000), (1_200_000, 1_199_999)] {
